@@ -161,6 +161,8 @@ upd1 = sym('upd1', (T, I, R), T, lambda a, i, s: _np.concatenate([a[:int(i)], [s
 pd = sym('pd', (T,), B, lambda a: bool(_np.allclose(a, a.T) and _np.all(_np.linalg.eigvalsh((a + a.T) / 2) > 0)))
 nonzero = sym('nonzero', (T,), B, lambda v: bool(_np.any(v != 0)))
 
+sdivwhere = sym('sdivwhere', (R, T, T), T, lambda c, w, m: _np.divide(c, w, where=m.astype(bool), out=w.astype(float).copy()))   # np.divide(c, w, where=m, out=w)
+setmask = sym('setmask', (T, T, R), T, lambda a, m, s: _np.where(m.astype(bool), s, a))      # a[m] = s  (m boolean mask)
 setwhere_eq = sym('setwhere_eq', (T, R, R), T, lambda a, c, s: _np.where(a == c, s, a))      # a[a == c] = s
 
 sqT = sq
@@ -309,6 +311,12 @@ ax('at1_upd1', 'lib', [a, i, j, s], at1(upd1(a, i, s), j) == z3.If(j == i, s, at
    gen=dict(a='vec(n)', i='idx(n)', j='idx(n)', s='real'))
 ax('len_upd1', 'lib', [a, i, s], lenT(upd1(a, i, s)) == lenT(a), [z3.MultiPattern(lenT(upd1(a, i, s)))], ['lenT', 'upd1'], gen=dict(a='vec(n)', i='idx(n)', s='real'))
 ax('at1_zeros_', 'lib', [n, j], at1(zeros(n), j) == 0, [z3.MultiPattern(at1(zeros(n), j))], ['at1', 'zeros'])
+_m = z3.Const('m', T)
+ax('at1_sdivwhere', 'lib', [s, a, _m, j], at1(sdivwhere(s, a, _m), j) == z3.If(at1(_m, j) != 0, s / at1(a, j), at1(a, j)),
+   [z3.MultiPattern(at1(sdivwhere(s, a, _m), j))], ['at1', 'sdivwhere'])
+ax('at1_setmask', 'lib', [a, _m, s, j], at1(setmask(a, _m, s), j) == z3.If(at1(_m, j) != 0, s, at1(a, j)),
+   [z3.MultiPattern(at1(setmask(a, _m, s), j))], ['at1', 'setmask'])
+ax('at1_notT', 'lib', [a, j], at1(notT(a), j) == 1 - at1(a, j), [z3.MultiPattern(at1(notT(a), j))], ['at1', 'notT'])
 ax('at1_setwhere_eq', 'lib', [a, s, t, j], at1(setwhere_eq(a, s, t), j) == z3.If(at1(a, j) == s, t, at1(a, j)),
    [z3.MultiPattern(at1(setwhere_eq(a, s, t), j))], ['at1', 'setwhere_eq'], gen=dict(a='vec(n)', s='real', t='real', j='idx(n)'))
 ax('pd_eye', 'math', [n], pd(eye(n)), [z3.MultiPattern(eye(n))], ['eye'], lean='posDef_one')
